@@ -7,7 +7,7 @@ import cfgs as C
 import fields as F
 import hist as H
 import props.cfgprops as P
-from core import Result, stable
+from core import Result, stable, guard
 
 RULE = ("(a) random schemas with sensitive and non-sensitive fields at the root, in nested sub-configurations, config types and list "
         "items x histories ending in to_tree(virtual, sensitive_mask) for masks '', one character, longer — compared with the Lean "
@@ -293,8 +293,8 @@ def nested_stream(ctx, res, n):
 def run(ctx, n_quick=150, n_thorough=5000):
     res = Result()
     P.run_stream(ctx, res, "C10", ctx.n(n_quick, n_thorough), oracle, gen_ops=gen_ops, ops_len=(3, 8), schema_gen=gen_schema)
-    marker_stream(ctx, res, ctx.n(8, 200))
-    nested_stream(ctx, res, ctx.n(300, 8000))
+    guard(res, "C10", marker_stream, ctx, res, ctx.n(8, 200))
+    guard(res, "C10", nested_stream, ctx, res, ctx.n(300, 8000))
     return res
 
 
